@@ -66,13 +66,26 @@ theorem mem_map_fst_insertField (x : String) (e : String × Value) :
       · rintro (h | h | h) <;> simp [h]
       · rintro (h | h | h) <;> simp [h]
 
+theorem mem_map_fst_insertFieldFirst (x : String) (e : String × Value) :
+    ∀ l : List (String × Value), x ∈ (insertFieldFirst e l).map (·.1) ↔ x = e.1 ∨ x ∈ l.map (·.1)
+  | [] => by simp [insertFieldFirst]
+  | y :: l => by
+    have ih := mem_map_fst_insertFieldFirst x e l
+    simp only [insertFieldFirst]
+    split
+    · simp only [List.map_cons, List.mem_cons, ih]
+      constructor
+      · rintro (h | h | h) <;> simp [h]
+      · rintro (h | h | h) <;> simp [h]
+    · simp
+
 theorem mem_map_fst_sort (x : String) :
     ∀ l : FieldList, x ∈ (FieldList.sort l).map (·.1) ↔ x ∈ l.map (·.1)
   | [] => by simp [FieldList.sort]
   | e :: l => by
     have ih := mem_map_fst_sort x l
     simp only [FieldList.sort, List.foldr_cons] at ih ⊢
-    rw [mem_map_fst_insertField, ih]
+    rw [mem_map_fst_insertFieldFirst, ih]
     simp
 
 theorem identity_keys_mem {s : Schema} {lt : ListT} {c : Value} {id : PE}
